@@ -138,3 +138,47 @@ class Gen:
             if isinstance(n, ast.Call) and isinstance(n.func, ast.Subscript) and txt(n.func.value) == "self._build_functions":
                 out.append(n)
         return out
+
+
+
+def early_exits(o, prog, qn):
+    """Every exit of a generator comes after its stub loops: a top-level `if <test>: return <edge list>` placed before them is harmless
+    only when the test says that there is nothing to build (an empty joint degree sequence / no stubs at all); a test that looks at ONE
+    vertex (`not any(jds[0])`), at a count, at a size ... returns an empty graph for inputs that have edges to place."""
+    import ast as _ast
+    from gcmstatic import astx as _astx
+    from gcmstatic.astx import txt as _txt
+    fn = prog.func(qn)
+    if fn is None:
+        return
+    loops = [s_ for s_ in fn.body if isinstance(s_, (_ast.For, _ast.While))]
+    if not loops:
+        o.undecided(f"no top-level loop in {qn}", fn)
+        return
+    last = loops[-1]
+    params = [p_ for p_ in fn.params if p_ not in ("self", "cls")]
+    jds = params[0] if params else "jds"
+    n = 0
+    for st in fn.body:
+        if st is last:
+            break
+        if not (isinstance(st, _ast.If) and any(isinstance(x_, _ast.Return) for x_ in _ast.walk(st))):
+            continue
+        n += 1
+        # the test, as a disjunction
+        parts = st.test.values if isinstance(st.test, _ast.BoolOp) and isinstance(st.test.op, _ast.Or) else [st.test]
+        stub_names = {nm for nm in ("stubs",)}
+        def nothing(t_):
+            tt = _txt(t_)
+            return tt in (f"not {jds}", f"len({jds}) == 0", f"{jds} == []", f"not len({jds})", "not stubs", "len(stubs) == 0", "not any(stubs)",
+                          f"not any(any(jd) for jd in {jds})", f"not any(map(any, {jds}))")
+        bad = [t_ for t_ in parts if not nothing(t_)]
+        if not bad:
+            o.holds(fn, st, f"early exit only when there is nothing to build (`{_txt(st.test)}`)")
+        elif any(isinstance(x_, _ast.Subscript) and _txt(x_.value) == jds for t_ in bad for x_ in _ast.walk(t_)):
+            o.violated(fn, st, f"the generator returns before its stub loops when `{_txt(bad[0])}`: the test looks at ONE vertex of `{jds}`, so a sequence whose other vertices "
+                               "have edges to place comes back as an empty edge list", shape_free=True)
+        else:
+            o.undecided(f"the generator returns before its stub loops when `{_txt(bad[0])[:60]}`", fn, st)
+    if not n:
+        o.holds(fn, last, "no exit before the stub loops")
